@@ -258,31 +258,31 @@ func clip(s string) string {
 
 var svcCatalogue = map[string][]any{
 	"image":             {"alpine", "${IMG}", "${IMG:-busybox}", "r/${TAG-x}:1"},
-	"command":           {"echo a", L{"echo", "a"}, nil, L{}, "echo ${V}"},
+	"command":           {"", "echo a", L{"echo", "a"}, nil, L{}, "echo ${V}"},
 	"entrypoint":        {"/bin/sh -c", L{"sh"}},
 	"build":             {".", "./dir", M{"context": "./ctx", "dockerfile": "D", "args": M{"A": "1", "B": nil}}, M{"context": "https://example.com/r.git", "args": L{"A=1", "B"}}, M{"dockerfile_inline": "FROM x", "ssh": L{"default"}, "additional_contexts": L{"c=./d"}}, M{"context": "~/c", "additional_contexts": M{"c": "./d", "e": "docker-image://x"}}},
-	"environment":       {L{"A=1", "B", "V"}, M{"A": "1", "B": nil, "C": "${V}"}, L{"A=${V:-d}", "HOMEV"}},
-	"env_file":          {"a.env", L{"a.env", "b.env"}, L{M{"path": "c.env", "required": false}, "d.env"}, L{M{"path": "./e.env", "format": "raw"}}},
-	"labels":            {M{"a": "b"}, L{"a=b", "c"}, M{"x": 1, "y": true}},
+	"environment":       {L{"A=1", "A=2", "B=1", "B=2"}, L{"B=3", "C", "A"}, L{"A", 1}, L{"A=1", "B", "V"}, M{"A": "1", "B": nil, "C": "${V}"}, L{"A=${V:-d}", "HOMEV"}},
+	"env_file":          {L{"a.env", "a.env", "b.env", "b.env"}, L{M{"path": "a.env"}, "a.env"}, "a.env", L{"a.env", "b.env"}, L{M{"path": "c.env", "required": false}, "d.env"}, L{M{"path": "./e.env", "format": "raw"}}},
+	"labels":            {L{"a=1", "a=2", "c=1", "c=2"}, L{"c=3", "a"}, M{"a": "b"}, L{"a=b", "c"}, M{"x": 1, "y": true}},
 	"label_file":        {"l.labels", L{"l1", "./l2"}},
-	"ports":             {L{"80"}, L{"8080:80", "127.0.0.1:81:81/udp"}, L{8080}, L{M{"target": 80, "published": "8080", "protocol": "tcp", "mode": "host"}}, L{"3000-3002:3000-3002"}, L{M{"target": 80}, "80"}},
+	"ports":             {L{"80", "80", "81/udp", "81/udp"}, L{M{"target": 80, "protocol": "tcp"}, M{"target": 80}}, L{"80-81-82"}, L{"80/tcp/x"}, L{"80"}, L{"8080:80", "127.0.0.1:81:81/udp"}, L{8080}, L{M{"target": 80, "published": "8080", "protocol": "tcp", "mode": "host"}}, L{"3000-3002:3000-3002"}, L{M{"target": 80}, "80"}},
 	"expose":            {L{"80", 81}, L{"80/udp"}},
-	"volumes":           {L{"./data:/data"}, L{"data:/data:ro"}, L{"/abs:/c:z"}, L{M{"type": "bind", "source": "./src", "target": "/t"}}, L{M{"type": "volume", "source": "data", "target": "/d", "volume": M{"nocopy": true}}}, L{"~/h:/h"}, L{"/anon"}, L{M{"type": "tmpfs", "target": "/tmp", "tmpfs": M{"size": "1m"}}}},
+	"volumes":           {L{"./a:/data", "./b:/data", "./c:/e", "./d:/e"}, L{"a:b:c:d"}, L{"./data:/data:ro,z,rshared"}, L{"./data:/data"}, L{"data:/data:ro"}, L{"/abs:/c:z"}, L{M{"type": "bind", "source": "./src", "target": "/t"}}, L{M{"type": "volume", "source": "data", "target": "/d", "volume": M{"nocopy": true}}}, L{"~/h:/h"}, L{"/anon"}, L{M{"type": "tmpfs", "target": "/tmp", "tmpfs": M{"size": "1m"}}}},
 	"networks":          {L{"n1"}, M{"n1": nil}, M{"n1": M{"aliases": L{"a"}, "priority": 2}, "n2": M{}}, L{"n1", "n2"}},
-	"depends_on":        {L{"b"}, M{"b": M{"condition": "service_healthy"}}, M{"b": M{"condition": "service_started", "restart": true, "required": false}}, L{"b", "c"}},
+	"depends_on":        {L{"b", "c", "b"}, M{"c": M{"condition": "service_completed_successfully"}}, L{"b"}, M{"b": M{"condition": "service_healthy"}}, M{"b": M{"condition": "service_started", "restart": true, "required": false}}, L{"b", "c"}},
 	"deploy":            {M{"replicas": 2}, M{"resources": M{"limits": M{"cpus": "0.5", "memory": "10M"}}}, M{"replicas": "${N:-1}"}, M{"resources": M{"reservations": M{"devices": L{M{"capabilities": L{"gpu"}, "count": "all"}}}}}},
 	"healthcheck":       {M{"test": "curl x", "interval": "10s"}, M{"test": L{"CMD", "true"}, "retries": 3}, M{"disable": true}, M{"test": L{"NONE"}}},
-	"logging":           {M{"driver": "json-file", "options": M{"max-size": "1m"}}, M{"options": M{"a": 1}}},
-	"ulimits":           {M{"nofile": 1024}, M{"nofile": M{"soft": 1, "hard": 2}, "nproc": "3"}},
-	"secrets":           {L{"s1"}, L{M{"source": "s1", "target": "/t", "mode": 288}}},
+	"logging":           {M{"driver": "syslog"}, M{"driver": "json-file", "options": M{"max-size": "2m", "x": "y"}}, M{"driver": "json-file", "options": M{"max-size": "1m"}}, M{"options": M{"a": 1}}},
+	"ulimits":           {M{"nofile": nil}, M{"nofile": -1}, M{"nofile": 1024}, M{"nofile": M{"soft": 1, "hard": 2}, "nproc": "3"}},
+	"secrets":           {L{"s1", "s1", "s2", "s2"}, L{M{"source": "s1"}, "s1"}, L{"s1"}, L{M{"source": "s1", "target": "/t", "mode": 288}}},
 	"configs":           {L{"c1"}, L{M{"source": "c1", "target": "/c"}}},
-	"extra_hosts":       {L{"h:1.2.3.4"}, M{"h": "1.2.3.4"}, M{"h": L{"1.2.3.4", "::1"}}, L{"h=1.2.3.4"}},
+	"extra_hosts":       {L{"h:1.2.3.4", "h:5.6.7.8", "g=::1"}, L{1}, M{}, L{"h:1.2.3.4"}, M{"h": "1.2.3.4"}, M{"h": L{"1.2.3.4", "::1"}}, L{"h=1.2.3.4"}},
 	"dns":               {"1.1.1.1", L{"1.1.1.1", ""}, L{}},
 	"dns_search":        {"s", L{"s"}},
 	"tmpfs":             {"/t", L{"/t", "/u"}},
 	"sysctls":           {M{"a": 1}, L{"a=1"}},
-	"cap_add":           {L{"ALL", "ALL"}, L{"NET_ADMIN"}},
-	"devices":           {L{"/dev/a:/dev/b:rw"}, L{M{"source": "/dev/a", "target": "/dev/b"}}},
+	"cap_add":           {L{"A", "B", "A", "B"}, L{"ALL", "ALL"}, L{"NET_ADMIN"}},
+	"devices":           {L{"/dev/a"}, L{"/dev/a:/dev/b:rw:x"}, L{"a:b:c:d:e"}, L{"/dev/a:/dev/b:rw"}, L{M{"source": "/dev/a", "target": "/dev/b"}}},
 	"profiles":          {L{"p"}, L{"p", "q"}},
 	"container_name":    {"c1", "${V}"},
 	"privileged":        {true, "true", "${B:-false}"},
